@@ -70,6 +70,7 @@ package api
 //@   ensures at-most-one-op: opCalls() <= old(opCalls()) + 1
 //@   ensures not-called-is-400: opCalls() == old(opCalls()) ==> lastStatus(c) == 400
 //@   ensures called: opCalls() > old(opCalls()) ==> lastOp() == "UpdateProject"
+//@   ensures body-decoded-as-json: opCalls() > old(opCalls()) ==> jsonDecodes(c) == old(jsonDecodes(c)) + 1
 //@   ensures total-failure: opCalls() > old(opCalls()) && lastOpErr() != nil && len(resUpdateProject()) == 0 ==> lastStatus(c) == 400
 //@   ensures partial: opCalls() > old(opCalls()) && lastOpErr() != nil && len(resUpdateProject()) != 0 ==> lastStatus(c) == 207 && lastBody(c) == boxed(resUpdateProject())
 //@   ensures ok-is-200: opCalls() > old(opCalls()) && lastOpErr() == nil ==> lastStatus(c) == 200 && lastBody(c) == boxed(resUpdateProject())
@@ -85,6 +86,7 @@ package api
 //@   ensures not-called-is-400: opCalls() == old(opCalls()) ==> lastStatus(c) == 400
 //@   ensures error-is-400: opCalls() > old(opCalls()) && lastOpErr() != nil ==> lastStatus(c) == 400
 //@   ensures ok-is-200: opCalls() > old(opCalls()) && lastOpErr() == nil ==> lastStatus(c) == 200 && lastOp() == "UpdateProcess"
+//@   ensures body-decoded-as-json: opCalls() > old(opCalls()) ==> jsonDecodes(c) == old(jsonDecodes(c)) + 1
 //@ func (api *PcApi) ShutDownProject
 //@   ensures one-response: responses(c) == old(responses(c)) + 1 && lastStatus(c) == 200
 //@   ensures delegated: opCalls() == old(opCalls()) + 1 && lastOp() == "ShutDownProject"
